@@ -6,6 +6,7 @@ import J5V.Compile.SymProofs
 import J5V.Compile.FieldShapeProofs
 import J5V.Generated.CompileconstsFacts
 import J5V.Generated.BuildersFacts
+import J5V.Generated.ImportmapFacts
 /-!
 # C02 — j5s compiles to exactly the protobuf contract the source declares
 
@@ -453,6 +454,58 @@ theorem C02_scalar_type_table (rules : Rules) (lr : Bool) (ifmt : IntFmt) (kf : 
         some (intType ifmt, [])) :=
   scalar_type_table rules lr ifmt kf ek
 
+/-- float fields: `float` / `double` by format (rule-free form: every float rule is rejected —
+recorded finding `c07-rejected:isolated:float`) -/
+theorem C02_scalar_type_float (ffmt : FloatFmt) (lr : Bool) :
+    ((scalarField (.float ffmt [] lr)).bind (·.res)).map (fun r => (r.type, r.typeName)) =
+      some (floatType ffmt, []) :=
+  scalar_type_float ffmt lr
+
+/-- **Arrays.** An array property whose item type converts is a `repeated` field carrying the ITEM's
+proto type and type name (scalar, well-known message, reference, inline type) and
+`(j5.ext.v1.field).array`. -/
+theorem C02_array_item_type (c : Ctx) (np : List Str) (io : Bool) (number : Nat) (name : Str)
+    (req opt : Bool) (items : Field) (arules : Rules) (r : FieldRes)
+    (hr : (bField c np (toCamel name) items).res = some r) (f : FieldSkel)
+    (h : (bProperty c np io number (.mk name req opt (.array items arules))).fld = some f) :
+    f.type = r.type ∧ f.typeName = r.typeName ∧ f.repeated = true ∧ f.ext = b!"array" :=
+  bProperty_array c np io number name req opt items arules r hr f h
+
+/-- **Type names of reference and inline fields** (next to `C02_ref_adds_import` for object
+references): a oneof reference that resolves to a message and an enum reference that resolves to
+an enum (rule values and default filters naming options) carry the absolute name
+`TypeRef.protoTypeName` of the declared type, with proto type message / enum; an inline object or
+oneof field refers to its nested message by the RELATIVE dotted name parent-path + (given name or
+default nesting name). (Inline enums: `C02_nested_naming`'s enum twin is the `.enumInl` arm of
+`bField`, typeName `relName np name` — covered by the list equations of `C02_exactness` only.) -/
+theorem C02_ref_type_names (c : Ctx) (np : List Str) (d pkg schema : Str) (rules : Rules) (t : TypeRef)
+    (h : c.resolve pkg schema = some t) :
+    (∀ lr, t.kind.isMessage = true →
+      ∃ r, (bField c np d (.oneofRef pkg schema rules lr)).res = some r ∧
+        r.type = .message ∧ r.typeName = t.protoTypeName ∧ r.ext = b!"oneof") ∧
+    (∀ (lr : Option (List Str)) pfx names, t.kind = .enum pfx names →
+      mapValuesOk pfx names (enumRuleVals rules) = true → mapValuesOk pfx names (lr.getD []) = true →
+      ∃ r, (bField c np d (.enumRef pkg schema rules lr)).res = some r ∧
+        r.type = .enum ∧ r.typeName = t.protoTypeName ∧ r.ext = b!"enum") :=
+  ⟨fun lr hm => bField_oneofRef_res c np d pkg schema rules lr t h hm,
+   fun lr pfx names hk h1 h2 => bField_enumRef_res c np d pkg schema rules lr t pfx names h hk h1 h2⟩
+
+theorem C02_inline_type_names (c : Ctx) (np : List Str) (d : Str) :
+    (∀ name props fl rules, ((bField c np d (.objectInl name props fl rules)).res.map (fun r => (r.type, r.typeName))) =
+      some (.message, relName np (if name = [] then d else name))) ∧
+    (∀ name props rules lr, ((bField c np d (.oneofInl name props rules lr)).res.map (fun r => (r.type, r.typeName))) =
+      some (.message, relName np (if name = [] then d else name))) :=
+  bField_inline_typeName c np d
+
+/-- non-vacuity: an array of int64; an enum reference with a prefixed and a bare rule value -/
+example :
+    ((bProperty { resolve := fun _ _ => none } [b!"Foo"] false 1
+      (.mk b!"nums" false false (.array (.integer .int64 [] false) []))).fld.map
+        (fun f => (f.type, f.repeated))) = some (.int64, true) ∧
+    ((bField { resolve := fun _ _ => some ⟨b!"bar.v1", b!"E", b!"bar/v1/b.j5s.proto", .enum b!"E_" [b!"E_UNSPECIFIED", b!"E_ONE"]⟩ }
+        [b!"Foo"] b!"X" (.enumRef [] b!"E" [⟨b!"in", .strs [b!"ONE", b!"E_ONE"]⟩] none)).res.map (·.typeName)) =
+      some b!".bar.v1.E" := by decide
+
 /-- **Maps.** A map property whose item type converts is emitted as a `repeated` message field of type
 `<CamelCase(snake(name))>Entry` with `(j5.ext.v1.field).map`, together with exactly one map-entry
 message of that name for the enclosing context: `key` = string, number 1; `value` = number 2 with
@@ -650,5 +703,35 @@ theorem C02_src_append_order :
         ("fields.go", "buildProperty", "mb.descriptor.Field", "literal"),
         ("service.go", "conversionVisitor.visitServiceMethodNode", "service.desc.Method", "append-end") ] := by
   decide
+
+end J5V.Props.C02
+
+/-! ## Obligation over facts regenerated from the current source (`extract importmap`)
+
+The import loop of `j5Imports` (j5convert/imports.go), statement by statement — the shape
+`Imports.j5ImportsGo` mirrors and `C02_imports` is about: an empty path returns at once; a FILE path
+(contains `/`) writes ONE entry, under the package of its directory, and continues (no short name);
+an alias writes one entry, under the alias, and continues; a package name with fewer than two
+segments is an error; otherwise TWO entries, the last-but-one segment and the full name, both the
+same definition. Go map writes in program order = `mapGet` (last write wins). A file import that
+falls through to the short-name registration (seeded change C02-m9), a new arm or a reordered write
+changes the list and fails the obligation. -/
+namespace J5V.Props.C02
+open J5V.Generated.Importmap
+
+theorem C02_src_import_loop :
+    importLoop =
+      [ "if imp.Path == \"\" { lets  ; writes  ; return }",
+        "let var src *bcl_j5pb.SourceLocation",
+        "if importSources != nil { lets  ; writes  ; - }",
+        "if strings.Contains(imp.Path, \"/\") { lets pkg := PackageFromFilename(imp.Path) ; writes out[pkg] ; continue }",
+        "let pkg := imp.Path",
+        "if imp.Alias != \"\" { lets  ; writes out[imp.Alias] ; continue }",
+        "let parts := strings.Split(pkg, \".\")",
+        "if len(parts) < 2 { lets  ; writes  ; continue }",
+        "let withoutVersion := parts[len(parts)-2]",
+        "let def := &importDef{ fullPath: pkg, source: src, }",
+        "write out[withoutVersion]",
+        "write out[pkg]" ] := by decide
 
 end J5V.Props.C02
